@@ -379,6 +379,9 @@ void generate(Program &prog, dsim::Config &cfg, dsim::Rng &pr, dsim::Rng &cr, in
   }
   cfg.spin_bound = 3 * n + 12;
   cfg.max_steps = n > 8 ? 400000 : 200000;
+  cfg.tso = cr.chance(1, 4);
+  static const int kDrain[] = {1, 5, 25};
+  cfg.tso_drain_percent = kDrain[cr.below(3)];
 }
 
 std::string render(const Program &p)
